@@ -11,6 +11,10 @@ ephemeral keys hit once in 256 exchanges:
           "short"    K fits in fewer bytes than the field / modulus: the big-endian result has at
                      least one leading 00 byte, which the mpint drops (8 * (n - 1) bits or fewer)
           "signpad"  K's bit length is a multiple of 8: the mpint needs a 00 byte in front
+          "short-without-sign-byte-00"
+                     "short" and NOT "signpad": leading 00 bytes are dropped and none is put in front, the
+                     mpint is strictly shorter than the field (a "short" K is also "signpad" every second
+                     time, and then the mpint of a K with ONE leading zero byte is as long as the field again)
 
 The server role draws its ephemeral key AFTER it has seen the client's public value, so only a
 server can steer K this way (a client commits to its public value first).
@@ -30,7 +34,7 @@ from . import mitm
 from paramiko.message import Message  # noqa: E402
 from paramiko.ssh_exception import SSHException  # noqa: E402
 
-SHAPES = ("any", "short", "signpad")
+SHAPES = ("any", "short", "signpad", "short-without-sign-byte-00")
 _EC = {"ecdh-sha2-nistp256": ("SECP256R1", 32), "ecdh-sha2-nistp384": ("SECP384R1", 48), "ecdh-sha2-nistp521": ("SECP521R1", 66)}
 MAX_TRIES = 200000  # P(no "short" K in that many draws) = (255/256)**200000: never
 
@@ -53,6 +57,8 @@ def has_shape(K, n, shape):
         return K.bit_length() <= 8 * (n - 1)
     if shape == "signpad":
         return K > 0 and K.bit_length() % 8 == 0
+    if shape == "short-without-sign-byte-00":
+        return 0 < K.bit_length() <= 8 * (n - 1) and K.bit_length() % 8 != 0
     raise ValueError(shape)
 
 
